@@ -49,6 +49,9 @@ def run_instance(rt, boxes, hitsv, qn, a, b, stride, phase):
             idx = rt.Index([(ids[i], (f(bx[0]), f(bx[1]), f(bx[2]), f(bx[3]))) for i, bx in enumerate(boxes)])
     except (RecursionError, vlib.CallTimeout) as ex:
         return [("build.terminates", None, type(ex).__name__, None, [])], 0
+    except Exception as ex:  # pylint: disable=broad-except
+        # construction over a legal collection (the empty one included) raised: no query can be answered
+        return [("build.raises", None, type(ex).__name__ + ": " + str(ex)[:60], None, [])], 0
     bad = []
     nq = 0
     prior = []
@@ -118,8 +121,8 @@ def record(rt, rng, ncoll, nq):
         try:
             with vlib.time_limit(10.0):
                 idx = rt.Index([(ids[i], tuple(cf(v) for v in bx)) for i, bx in enumerate(boxes)])
-        except (RecursionError, vlib.CallTimeout):
-            idx = None
+        except (Exception, vlib.CallTimeout):  # pylint: disable=broad-except
+            idx = None                    # every query of this collection is then recorded as "raised"
         for _q in range(nq):
             if boxes and rng.random() < 0.5:       # queries touching / on a box edge
                 bx = rng.choice(boxes)
@@ -179,6 +182,16 @@ def run(ctx):
     # E1 + dump
     dump = os.path.join(ctx.workdir, "e1", "states")
     cfgs = ["RTree_quick.cfg"] + (["RTree_thorough.cfg"] if tier == "thorough" else [])
+    # the empty collection is a collection: construction succeeds and every query answers the empty set
+    try:
+        with vlib.time_limit(5.0):
+            empty_answer = list(rt.Index([]).intersection((0, 0, 1, 1)))
+        if empty_answer:
+            ctx.violation("query.extra", {"mode": "G", "boxes": [], "q": [0, 0, 1, 1], "map": [1, 0], "ids": 0, "prior_q": [], "earlier_indexes": []}, [], empty_answer)
+    except (Exception, vlib.CallTimeout) as ex:  # pylint: disable=broad-except
+        ctx.violation("build.raises", {"mode": "G", "boxes": [], "q": None, "map": [1, 0], "ids": 0, "prior_q": [], "earlier_indexes": []}, "an empty index",
+                      type(ex).__name__ + ": " + str(ex)[:60])
+    ctx.evaluations += 1
     for ci, cfg in enumerate(cfgs):
         qn = 5 if ci == 0 else 4
         ctx.run_tlc("e1_%d" % ci, "RTree", cfg, dump=dump, coverage=(ci == 0 and tier == "thorough"))
@@ -258,8 +271,13 @@ def replay(rec):
         oids, _b = id_maps(len(old["boxes"]), old["ids"])
         keep.append(rt.Index([(oids[i], tuple(oa * v + ob for v in bx)) for i, bx in enumerate(old["boxes"])]))
     ids, back = id_maps(len(c["boxes"]), c.get("ids", 0))
-    idx = rt.Index([(ids[i], tuple(cf(v) for v in bx)) for i, bx in enumerate(c["boxes"])])
+    try:
+        idx = rt.Index([(ids[i], tuple(cf(v) for v in bx)) for i, bx in enumerate(c["boxes"])])
+    except Exception as ex:  # pylint: disable=broad-except
+        return False, {"verdict": "build.raises", "exception": type(ex).__name__ + ": " + str(ex)[:60]}
     q = c["q"]
+    if q is None:
+        return True, {"verdict": "ok", "note": "construction succeeded"}
     for pq in c.get("prior_q", []):                      # the queries made on this index before the failing one, results emptied as the check does
         try:
             idx.intersection(tuple(cf(v) for v in pq)).clear()
